@@ -457,11 +457,16 @@ def main():
         replay_paths.append(rp)
         lines.append("VIOLATION property=%s replay=%s%s" % (
             prop, rp, "" if reproduced else " no-failing-input-found"))
+    bounded_known = []
     for (u, b, obs) in bounded_fail:
         oid = "%s.bounded[%s]" % (u.unit, b["name"])
         kh = [k for k in known if k["property"] == prop and obligation_match(k["obligation"], oid)]
         if kh:
             lines.append("KNOWN-FINDING: property=%s %s [%s]" % (prop, kh[0]["what"], oid))
+            bounded_known.append(oid)
+            for be in bounded:
+                if be["name"] == oid:
+                    be["known_finding"] = kh[0]["what"][:300]
             continue
         os.makedirs(os.path.join(OUT, "replays"), exist_ok=True)
         rp = os.path.join(OUT, "replays", "%s-%s.json" % (prop, re.sub(r"[^A-Za-z0-9_.#@\[\]-]+", "_", oid)))
@@ -523,7 +528,7 @@ def main():
             "backends": sorted(set(["verus 0.2026.09.13 (Z3)"] + [b for (_, ex) in extra if ex for b in ex.get("backends", [])])),
             "solver_time_s": round(smt_s, 3),
             "violated": sorted(set(f["obligation"] for f in viol)),
-            "known_findings": sorted(set(f["obligation"] for (_, f) in known_hits)),
+            "known_findings": sorted(set(f["obligation"] for (_, f) in known_hits) | set(bounded_known)),
             "known_finding_obligations_excluded_from_counts": n_known_excluded,
             "undischarged": undischarged,
             "undecided": undecided,
@@ -550,7 +555,7 @@ def main():
         f.write("\n")
     print("%s tier=%s units=%s obligations=%d discharged=%d violated=%d known=%d undecided=%d smt=%.2fs wall=%.1fs" % (
         prop, tier, ",".join(units), len(obligations), ev["coverage"]["discharged"], len(seen),
-        len(known_hits), len(undecided), smt_s, wall))
+        len(known_hits) + len(bounded_known), len(undecided), smt_s, wall))
     for u in undecided:
         print("UNDECIDED: " + u)
     if mutation and "mutants" in mutation:
